@@ -4,8 +4,10 @@ CONSTANTS
   Fams = {"kw", "prop", "view", "att"}
   MaxLen = 3
   Mix = 2
-  Bases = {"bare", "info"}
-  DeepBases = {"info"}
+  Bases = {"bare", "info", "rich"}
+  DeepBases = {"rich"}
+  ShallowBases = {"info"}
+  DeepFams = {"kw", "prop", "att"}
   Std = FALSE
   Emit = TRUE
 INVARIANTS TypeOK Isolated EmitCase
